@@ -9,6 +9,7 @@ import itertools
 import json
 import os
 import random
+import re
 
 from . import core, gosrc, mockgen, c01, drvrun
 from .core import Verdict
@@ -50,6 +51,11 @@ def gen_cases(ctx):
             cases.append({"kind": "catalogue", "inpkg": inpkg, "genseed": ctx.seed * 31 + inpkg, "idx": list(range(40 * k, 40 * k + CHUNK)), "template": "matryer", "formatter": "goimports",
                           "placement": "inpkg-test" if inpkg else "outpkg", "td": {"skip-ensure": True, "stub-impl": True, "with-resets": True}, "gomod": "plain",
                           "srckind": "ordinary", "drvseed": rng.randrange(1, 1 << 20), "td_level": "root", "override_false": True})
+    for k in range(4 if ctx.tier == "quick" else 24):
+        inpkg = k % 2 == 0
+        cases.append({"kind": "catalogue", "kind2": "dup", "inpkg": inpkg, "genseed": ctx.seed * 31 + inpkg, "idx": list(range(12 * k, 12 * k + CHUNK)), "template": "matryer",
+                      "formatter": "gofmt", "placement": "inpkg-test" if inpkg else "outpkg", "td": {"with-resets": True} if k % 2 else {}, "gomod": "plain", "srckind": "ordinary",
+                      "drvseed": 1})
     for k in range(6 if ctx.tier == "quick" else 40):
         inpkg = k % 2 == 0
         cases.append({"kind": "random" if k % 3 else "catalogue", "inpkg": inpkg, "genseed": rng.randrange(1 << 30) if k % 3 else ctx.seed * 31 + inpkg,
@@ -65,7 +71,79 @@ def gen_cases(ctx):
     return cases
 
 
+MOCK_HDR = re.compile(r"^// (\w+) is a mock implementation of ", re.M)
+ENSURE_HDR = re.compile(r"^// Ensure that \w+ does implement ", re.M)
+
+
+def mock_chunks(text):
+    """generated matryer file -> {struct name: text of that mock (its type, constructor-less API, methods), ensure blocks cut away}"""
+    out = {}
+    hs = list(MOCK_HDR.finditer(text))
+    for n, m in enumerate(hs):
+        end = hs[n + 1].start() if n + 1 < len(hs) else len(text)
+        chunk = text[m.start():end]
+        e = ENSURE_HDR.search(chunk)
+        if e:
+            chunk = chunk[:e.start()]
+        out[m.group(1)] = chunk.rstrip() + "\n"
+    return out
+
+
+def eval_dup(ctx, case):
+    """a mock is the same text whether its `configs` entry stands alone or next to a second entry for the same interface in the same output file:
+    record fields, parameter names and Func types derive from the interface, not from what was rendered before"""
+    ifaces = [i for i in c01.case_ifaces(case) if not i["tparams"]]
+    case = dict(case, onefile=True)
+    root, info = mockgen.build_module(ctx, case, ifaces)
+    pre = mockgen.precheck(root)
+    if pre.exit != 0:
+        return Verdict.inconclusive("generated package rejected by the toolchain: " + (pre.err + pre.out)[-400:])
+    cfg = info["cfg"]
+    outp = os.path.join(root, mockgen.out_file(info, ifaces[0], case["placement"]))
+    texts = {}
+    for mode in ("alone", "twice"):
+        c2 = json.loads(json.dumps(cfg))
+        c2["force-file-write"] = True
+        ents = c2["packages"][info["srcpath"]]["interfaces"]
+        for i in ifaces:
+            sn = drvrun.struct_name(i)
+            ents[i["name"]] = {"configs": [{"structname": sn}] + ([{"structname": "Second" + sn}, {"structname": "Third" + sn}] if mode == "twice" else [])}
+        with open(os.path.join(root, ".mockery.yml"), "w") as f:
+            f.write(json.dumps(c2))
+        r = core.run_mockery(ctx, root, [], timeout=600)
+        if r.timed_out:
+            return Verdict.inconclusive("watchdog")
+        if r.exit != 0 or r.panicked:
+            # generation failures of catalogue interfaces are C01's business
+            return Verdict.skipped("mockery failed for this chunk (C01's business): exit %s" % r.exit)
+        texts[mode] = mock_chunks(open(outp, errors="replace").read())
+    tags = ["placement=" + case["placement"], "configs-entry-alone-vs-with-siblings"]
+    compared = 0
+    for i in ifaces:
+        sn = drvrun.struct_name(i)
+        a, b = texts["alone"].get(sn), texts["twice"].get(sn)
+        if a is None or b is None:
+            return Verdict.violated("mock %s is missing from the output (alone: %s, with sibling entries: %s)" % (sn, a is not None, b is not None), {"iface": gosrc.render_iface(i)}, tags)
+        if a != b:
+            import difflib
+            d = [l for l in difflib.unified_diff(a.splitlines(), b.splitlines(), "alone", "with-sibling-entries", lineterm="", n=0)][:14]
+            return Verdict.violated("mock %s (feature %s) differs when the same interface has further `configs` entries in the same file: %s" % (sn, i["feature"], d[2:6]),
+                                    {"diff": d, "iface": gosrc.render_iface(i)}, tags)
+        for extra in ("Second" + sn, "Third" + sn):
+            if extra not in texts["twice"]:
+                return Verdict.violated("configs entry %s produced no mock" % extra, {}, tags)
+            if texts["twice"][extra].replace(extra, sn) != a:
+                import difflib
+                d = [l for l in difflib.unified_diff(a.splitlines(), texts["twice"][extra].replace(extra, sn).splitlines(), "first-entry", "later-entry", lineterm="", n=0)][:14]
+                return Verdict.violated("mock %s (a later `configs` entry of %s, feature %s) differs from the first entry's mock in more than its name: %s" % (extra, i["name"], i["feature"], d[2:6]),
+                                        {"diff": d, "iface": gosrc.render_iface(i)}, tags)
+        compared += 1
+    return Verdict.held({"mocks_compared": compared * 3}, nontrivial=compared > 0, tags=tags)
+
+
 def eval_case(ctx, case):
+    if case.get("kind2") == "dup":
+        return eval_dup(ctx, case)
     ifaces = c01.case_ifaces(case)
     if case.get("onefile"):
         # all mocks in ONE output file, every interface with its own combination of options
